@@ -28,6 +28,7 @@ import (
 	"sort"
 	"strconv"
 	"strings"
+	"sync"
 	"sync/atomic"
 	"time"
 
@@ -42,6 +43,7 @@ import (
 	"0chain.net/sharder/blockdb"
 	"0chain.net/sharder/blockstore"
 	"github.com/0chain/common/core/currency"
+	"golang.org/x/sys/unix"
 
 	"verif/lib/ev"
 )
@@ -112,43 +114,119 @@ func c26BuildIndexBytes(keylen int, mask int) ([]byte, map[string]int64) {
 	return buf.Bytes(), want
 }
 
-type c26Lookup struct {
-	mask, qi int
-	done     atomic.Bool
-	off      int64
-	err      error
+// c26Runner executes lookups one at a time on its own OS thread, so that the monitor can meter
+// the CPU time a lookup has consumed (a step budget, independent of machine load) and, when the
+// budget is exceeded, park the spinning thread (lowest priority, pinned to the last CPU) and go
+// on with a fresh runner.
+type c26Runner struct {
+	tid      int
+	in       chan func() (int64, error)
+	out      chan c26Result
+	startCPU atomic.Int64
 }
+
+type c26Result struct {
+	off int64
+	err error
+}
+
+func c26ThreadCPU(tid int) int64 {
+	clk := int32((^uint32(tid))<<3 | 6) // per-thread CPU-time clock id of thread tid (Linux)
+	var ts unix.Timespec
+	if err := unix.ClockGettime(clk, &ts); err != nil {
+		return -1
+	}
+	return ts.Nano()
+}
+
+func c26NewRunner() *c26Runner {
+	r := &c26Runner{in: make(chan func() (int64, error)), out: make(chan c26Result, 1)}
+	ready := make(chan struct{})
+	go func() {
+		runtime.LockOSThread()
+		r.tid = unix.Gettid()
+		close(ready)
+		for f := range r.in {
+			r.startCPU.Store(c26ThreadCPU(r.tid))
+			off, err := f()
+			r.out <- c26Result{off, err}
+		}
+	}()
+	<-ready
+	return r
+}
+
+// run returns (result, true) or (_, false) when the call consumed more than budget of CPU time
+// without returning; the runner is then unusable (its thread is parked).
+func (r *c26Runner) run(f func() (int64, error), budget time.Duration) (c26Result, bool) {
+	r.startCPU.Store(-1)
+	r.in <- f
+	tick := time.NewTimer(200 * time.Microsecond)
+	defer tick.Stop()
+	for {
+		select {
+		case res := <-r.out:
+			if os.Getenv("VERIF_C26_DEBUG") != "" {
+				if d := c26ThreadCPU(r.tid) - r.startCPU.Load(); d > c26MaxSeen {
+					c26MaxSeen = d
+					fmt.Fprintln(os.Stderr, "max cpu of a returning call (ns):", d)
+				}
+			}
+			return res, true
+		case <-tick.C:
+			st := r.startCPU.Load()
+			if st >= 0 {
+				if now := c26ThreadCPU(r.tid); now >= 0 && time.Duration(now-st) > budget {
+					var set unix.CPUSet
+					set.Set(runtime.NumCPU() - 1)
+					_ = unix.SchedSetaffinity(r.tid, &set)
+					_ = unix.Setpriority(unix.PRIO_PROCESS, r.tid, 19)
+					return c26Result{}, false
+				}
+			}
+			tick.Reset(500 * time.Microsecond)
+		}
+	}
+}
+
+// `store worker-c26idx <keylen> <from> <to>`: lookups number from..to-1 (numbered mask*|queries|+qi)
+// on both index kinds; stops early with an "X next <n>" line after c26MaxParked parked threads.
+// `store worker-c26idx <keylen> confirm <mask> <qi>`: one fixed-index lookup with a large budget.
+var c26MaxSeen int64
+
+const c26MaxParked = 40
 
 func c26IndexWorker() {
 	keylen, _ := strconv.Atoi(os.Args[2])
 	out := newWout()
 	defer out.flush()
 	queries := c26Queries(keylen)
-	nsub := 1 << len(c26Letters)
-
-	if len(os.Args) >= 5 { // confirmation run of one lookup
-		mask, _ := strconv.Atoi(os.Args[3])
-		qi, _ := strconv.Atoi(os.Args[4])
-		budget, _ := time.ParseDuration(os.Getenv("VERIF_HANG_BUDGET"))
-		if budget == 0 {
-			budget = 2 * time.Second
+	budget, _ := time.ParseDuration(os.Getenv("VERIF_HANG_CPU_BUDGET"))
+	if budget == 0 {
+		budget = 10 * time.Millisecond
+	}
+	build := func(mask int) (blockdb.Index, blockdb.Index, map[string]int64) {
+		data, want := c26BuildIndexBytes(keylen, mask)
+		mp := blockdb.VerifNewMapIndex()
+		if err := mp.Decode(bytes.NewReader(data)); err != nil {
+			out.violation("C26:mapIndex.Decode:error", fmt.Sprintf("keys=%v: %v", c26Subset(keylen, mask), err), map[string]any{"keylen": keylen, "mask": mask})
+			mp = nil
 		}
-		data, _ := c26BuildIndexBytes(keylen, mask)
 		fx := blockdb.VerifNewFixedKeyArrayIndex(int8(keylen))
 		if err := fx.Decode(bytes.NewReader(data)); err != nil {
-			ev.Fatal("decode: %v", err)
+			out.violation("C26:fixedKeyArrayIndex.Decode:error", fmt.Sprintf("keys=%v: %v", c26Subset(keylen, mask), err), map[string]any{"keylen": keylen, "mask": mask})
+			fx = nil
 		}
-		var l c26Lookup
-		t0 := time.Now()
-		go func() {
-			l.off, l.err = fx.GetOffset(blockdb.Key(queries[qi]))
-			l.done.Store(true)
-		}()
-		for time.Since(t0) < budget && !l.done.Load() {
-			time.Sleep(time.Millisecond)
-		}
-		if l.done.Load() {
-			out.extra(fmt.Sprintf("returned %d %v", l.off, l.err))
+		return mp, fx, want
+	}
+
+	if os.Args[3] == "confirm" {
+		mask, _ := strconv.Atoi(os.Args[4])
+		qi, _ := strconv.Atoi(os.Args[5])
+		_, fx, _ := build(mask)
+		res, ok := c26NewRunner().run(func() (int64, error) { return fx.GetOffset(blockdb.Key(queries[qi])) }, budget)
+		if ok {
+			out.extra(fmt.Sprintf("returned %d %v", res.off, res.err))
 		} else {
 			out.extra("hang")
 		}
@@ -156,89 +234,56 @@ func c26IndexWorker() {
 		os.Exit(0)
 	}
 
+	from, _ := strconv.Atoi(os.Args[3])
+	to, _ := strconv.Atoi(os.Args[4])
 	var states, evals int64
-	// map index first (sequential; the parent's cap covers an unexpected hang here)
-	type fixedCase struct {
-		idx  blockdb.Index
-		want map[string]int64
-	}
-	fixed := make([]fixedCase, nsub)
-	for mask := 0; mask < nsub; mask++ {
-		data, want := c26BuildIndexBytes(keylen, mask)
-		mp := blockdb.VerifNewMapIndex()
-		if err := mp.Decode(bytes.NewReader(data)); err != nil {
-			out.violation("C26:mapIndex.Decode:error", fmt.Sprintf("keys=%v: %v", c26Subset(keylen, mask), err), map[string]any{"keylen": keylen, "mask": mask})
-			continue
+	runner := c26NewRunner()
+	parked := 0
+	curMask := -1
+	var mp, fx blockdb.Index
+	var want map[string]int64
+	task := from
+	for ; task < to && parked < c26MaxParked; task++ {
+		mask, qi := task/len(queries), task%len(queries)
+		q := queries[qi]
+		if mask != curMask {
+			curMask = mask
+			mp, fx, want = build(mask)
+			states++
+			if fx != nil {
+				var got []string
+				for _, k := range fx.GetKeys() {
+					got = append(got, string(k))
+				}
+				if fmt.Sprint(got) != fmt.Sprint(c26Subset(keylen, mask)) {
+					out.violation("C26:fixedKeyArrayIndex.GetKeys:mismatch", fmt.Sprintf("stored %v, listed %v", c26Subset(keylen, mask), got), map[string]any{"keylen": keylen, "mask": mask})
+				}
+			}
 		}
-		for qi, q := range queries {
-			off, err := mp.GetOffset(blockdb.Key(q))
-			c26JudgeLookup(out, "mapIndex", keylen, mask, qi, q, want, off, err)
+		for _, kind := range []string{"mapIndex", "fixedKeyArrayIndex"} {
+			idx := mp
+			if kind == "fixedKeyArrayIndex" {
+				idx = fx
+			}
+			if idx == nil {
+				continue
+			}
 			evals++
-		}
-		fx := blockdb.VerifNewFixedKeyArrayIndex(int8(keylen))
-		if err := fx.Decode(bytes.NewReader(data)); err != nil {
-			out.violation("C26:fixedKeyArrayIndex.Decode:error", fmt.Sprintf("keys=%v: %v", c26Subset(keylen, mask), err), map[string]any{"keylen": keylen, "mask": mask})
-			continue
-		}
-		// GetKeys must list exactly the stored keys
-		var got []string
-		for _, k := range fx.GetKeys() {
-			got = append(got, string(k))
-		}
-		if fmt.Sprint(got) != fmt.Sprint(c26Subset(keylen, mask)) && !(len(got) == 0 && mask == 0) {
-			out.violation("C26:fixedKeyArrayIndex.GetKeys:mismatch", fmt.Sprintf("stored %v, listed %v", c26Subset(keylen, mask), got), map[string]any{"keylen": keylen, "mask": mask})
-		}
-		fixed[mask] = fixedCase{fx, want}
-		states++
-	}
-
-	// fixed index: one goroutine per lookup
-	var lookups []*c26Lookup
-	for mask := 0; mask < nsub; mask++ {
-		if fixed[mask].idx == nil {
-			continue
-		}
-		for qi := range queries {
-			lookups = append(lookups, &c26Lookup{mask: mask, qi: qi})
+			res, ok := runner.run(func() (int64, error) { return idx.GetOffset(blockdb.Key(q)) }, budget)
+			if !ok {
+				out.extra(fmt.Sprintf("hang %s %d %d", kind, mask, qi))
+				out.outcome(fmt.Sprintf("%s|%d|%s|no-return", kind, mask, q))
+				parked++
+				runner = c26NewRunner()
+				continue
+			}
+			c26JudgeLookup(out, kind, keylen, mask, qi, q, want, res.off, res.err)
 		}
 	}
-	var finished atomic.Int64
-	for _, l := range lookups {
-		go func(l *c26Lookup) {
-			l.off, l.err = fixed[l.mask].idx.GetOffset(blockdb.Key(queries[l.qi]))
-			l.done.Store(true)
-			finished.Add(1)
-		}(l)
-	}
-	// wait until every lookup returned, or no lookup has returned for `quiet` (the goroutines still
-	// running then have had thousands of scheduler slices each more than 10^4 x a lookup's cost)
-	quiet := 1500 * time.Millisecond
-	last, lastChange := int64(-1), time.Now()
-	for {
-		n := finished.Load()
-		if n == int64(len(lookups)) {
-			break
-		}
-		if n != last {
-			last, lastChange = n, time.Now()
-		} else if time.Since(lastChange) > quiet {
-			break
-		}
-		time.Sleep(5 * time.Millisecond)
-	}
-	for _, l := range lookups {
-		evals++
-		q := queries[l.qi]
-		if !l.done.Load() {
-			out.extra(fmt.Sprintf("hang %d %d", l.mask, l.qi))
-			out.outcome(fmt.Sprintf("fixed|%d|%s|no-return", l.mask, q))
-			continue
-		}
-		c26JudgeLookup(out, "fixedKeyArrayIndex", keylen, l.mask, l.qi, q, fixed[l.mask].want, l.off, l.err)
-	}
+	out.extra(fmt.Sprintf("next %d", task))
 	out.count(states, evals, evals)
 	out.flush()
-	os.Exit(0) // kills the spinning goroutines
+	os.Exit(0) // ends the parked threads
 }
 
 func c26JudgeLookup(out *wout, kind string, keylen, mask, qi int, q string, want map[string]int64, off int64, err error) {
@@ -894,23 +939,59 @@ func c26Main() {
 	hangs := 0
 	for _, kl := range keylens {
 		// ---- (a1)
-		w := runWorker([]string{"worker-c26idx", strconv.Itoa(kl)}, []string{fmt.Sprintf("GOMAXPROCS=%d", par)}, 120*time.Second)
-		if w.timedOut || w.err != nil {
-			ev.Fatal("index worker failed: timeout=%v err=%v %s", w.timedOut, w.err, w.stderr)
+		queries := c26Queries(kl)
+		total := (1 << len(c26Letters)) * len(queries)
+		chunk := (total + 2*par - 1) / (2 * par)
+		type hc struct {
+			kind     string
+			mask, qi int
 		}
-		var skipLines []string
-		type hc struct{ mask, qi int }
 		var cands []hc
-		for _, x := range absorb(run, w) {
-			var m, q int
-			if n, _ := fmt.Sscanf(x, "hang %d %d", &m, &q); n == 2 {
-				cands = append(cands, hc{m, q})
-				skipLines = append(skipLines, fmt.Sprintf("%d %d", m, q))
+		var skipLines []string
+		var cmu sync.Mutex
+		var wg sync.WaitGroup
+		sem := make(chan struct{}, par)
+		for lo := 0; lo < total; lo += chunk {
+			hi := lo + chunk
+			if hi > total {
+				hi = total
 			}
+			wg.Add(1)
+			sem <- struct{}{}
+			go func(lo, hi int) {
+				defer wg.Done()
+				defer func() { <-sem }()
+				for from := lo; from < hi; {
+					w := runWorker([]string{"worker-c26idx", strconv.Itoa(kl), strconv.Itoa(from), strconv.Itoa(hi)},
+						[]string{fmt.Sprintf("GOMAXPROCS=%d", c26MaxParked+8)}, 5*time.Minute)
+					if w.timedOut || w.err != nil {
+						ev.Fatal("index worker %d..%d failed: timeout=%v err=%v %s", from, hi, w.timedOut, w.err, w.stderr)
+					}
+					next := -1
+					cmu.Lock()
+					for _, x := range absorb(run, w) {
+						var kind string
+						var m, q int
+						if n, _ := fmt.Sscanf(x, "hang %s %d %d", &kind, &m, &q); n == 3 {
+							cands = append(cands, hc{kind, m, q})
+							if kind == "fixedKeyArrayIndex" {
+								skipLines = append(skipLines, fmt.Sprintf("%d %d", m, q))
+							}
+						}
+						fmt.Sscanf(x, "next %d", &next)
+					}
+					cmu.Unlock()
+					if next <= from {
+						ev.Fatal("index worker %d..%d made no progress", from, hi)
+					}
+					from = next
+				}
+			}(lo, hi)
 		}
+		wg.Wait()
 		hangs += len(cands)
 		if len(cands) > 0 {
-			// minimal candidate: fewest stored keys, then smallest mask / query
+			// minimal candidate first: fewest stored keys, then smallest mask / query
 			sort.Slice(cands, func(i, j int) bool {
 				bi, bj := popcount(cands[i].mask), popcount(cands[j].mask)
 				if bi != bj {
@@ -919,30 +1000,35 @@ func c26Main() {
 				if cands[i].mask != cands[j].mask {
 					return cands[i].mask < cands[j].mask
 				}
-				return cands[i].qi < cands[j].qi
+				if cands[i].qi != cands[j].qi {
+					return cands[i].qi < cands[j].qi
+				}
+				return cands[i].kind < cands[j].kind
 			})
-			// confirm one representative per class (absent / present key) 5x in fresh processes
+			// confirm one representative per class 5x in fresh processes with a 100x larger budget
 			confirmed := map[string]bool{}
 			for _, c := range cands {
-				q := c26Queries(kl)[c.qi]
-				present := false
+				q := queries[c.qi]
+				class := "absent-key-hang"
 				for _, k := range c26Subset(kl, c.mask) {
 					if k == q {
-						present = true
+						class = "present-key-hang"
 					}
 				}
-				class := "absent-key-hang"
-				if present {
-					class = "present-key-hang"
-				}
+				class = c.kind + ".GetOffset:" + class
 				if _, done := confirmed[class]; done {
+					continue
+				}
+				if c.kind != "fixedKeyArrayIndex" {
+					run.Violation("C26:"+class, fmt.Sprintf("stored %v lookup %q did not return", c26Subset(kl, c.mask), q), c)
+					confirmed[class] = true
 					continue
 				}
 				jobs := make([][]string, 5)
 				for i := range jobs {
-					jobs[i] = []string{"worker-c26idx", strconv.Itoa(kl), strconv.Itoa(c.mask), strconv.Itoa(c.qi)}
+					jobs[i] = []string{"worker-c26idx", strconv.Itoa(kl), "confirm", strconv.Itoa(c.mask), strconv.Itoa(c.qi)}
 				}
-				res := runWorkers(jobs, []string{"GOMAXPROCS=2", "VERIF_HANG_BUDGET=2s"}, 5, 60*time.Second)
+				res := runWorkers(jobs, []string{"GOMAXPROCS=4", "VERIF_HANG_CPU_BUDGET=1s"}, 5, 5*time.Minute)
 				all := true
 				for _, r := range res {
 					ok := false
@@ -954,12 +1040,18 @@ func c26Main() {
 					all = all && ok
 				}
 				confirmed[class] = all
+				n := 0
+				for _, d := range cands {
+					if d.kind == c.kind {
+						n++
+					}
+				}
 				if all {
-					run.Violation("C26:fixedKeyArrayIndex.GetOffset:"+class,
-						fmt.Sprintf("key length %d, stored keys %v: GetOffset(%q) does not return (5 of 5 fresh processes, 2 s budget each; returning lookups take < 1 us); %d of the %d (key set, query) pairs of this key length behave so", kl, c26Subset(kl, c.mask), q, len(cands), 256*len(c26Queries(kl))),
+					run.Violation("C26:"+class,
+						fmt.Sprintf("key length %d, stored keys %v: GetOffset(%q) does not return (5 of 5 fresh processes, each stopped after 1 s of CPU time spent inside the call; a returning lookup costs < 1 us); %d of the %d (key set, query) pairs of this key length did not return within 10 ms of CPU time", kl, c26Subset(kl, c.mask), q, n, total),
 						map[string]any{"keylen": kl, "stored_keys": c26Subset(kl, c.mask), "query": q, "how": "index := mapIndex{stored_keys}.Encode -> fixedKeyArrayIndex.Decode; index.GetOffset(query)  (= BlockDB.Open; BlockDB.Read(query))"})
 				} else {
-					run.Capped(fmt.Sprintf("lookup %v/%q did not return in the batch run but returned when re-run alone: not reported", c26Subset(kl, c.mask), q))
+					run.Capped(fmt.Sprintf("lookup %v/%q exceeded the 10 ms CPU budget in the batch run but returned when re-run alone: not reported", c26Subset(kl, c.mask), q))
 				}
 			}
 		}
@@ -995,7 +1087,7 @@ func c26Main() {
 
 	run.Assumptions = []string{
 		"crash model: a process crash leaves a prefix of the file being written (every 512-byte prefix, 0, 1, len-1, or no file); earlier completed files are untouched",
-		"hang verdict: a lookup that has not returned 1.5 s after the last of ~5000 sibling lookups returned, confirmed alone 5x with a 2 s budget (>10^6 x the cost of a returning lookup)",
+		"hang verdict: a lookup that consumed 10 ms of CPU time on its own OS thread without returning (a returning lookup costs < 1 us) is a candidate; the minimal candidate of each class is re-run alone 5x in fresh processes with a 1 s CPU budget before it is reported",
 		"DB-level Read is not re-executed for (key set, query) pairs whose index lookup - Read's first step - does not return",
 		"block equality = equality of the JSON form (all persisted fields: hash, header, tickets, transactions with outputs, magic block) plus MagicBlock.GetHash()",
 	}
